@@ -114,6 +114,11 @@ def step (s : St) (line : String) : St × String :=
   | ["reset", ns] => ({ Lifecycle.init with now := ns.toNat?.getD 0 }, "ok")
   | ["reset", ns, selfHex] => ({ Lifecycle.init with now := ns.toNat?.getD 0, self := (nameOf selfHex).getD "" }, "ok")
   | ["noop"] => (s, "skip")
+  | ["vbshape", a, d, e, l, p] =>
+    match a.toNat?, d.toNat?, e.toNat?, l.toNat?, p.toNat? with
+    | some a, some d, some e, some l, some p =>
+      (s, if tmHeaderStateless { appHash := a, data := d, evidence := e, lastResults := l, proposer := p } then "ok" else "err")
+    | _, _, _, _, _ => (s, "bad-op")
   | ["chainid", idHex, rev] =>
     -- IsRevisionFormat / ParseChainID / SetRevisionNumber of core/client/types/height.go on one chain id
     match unhex idHex, rev.toNat? with
